@@ -225,3 +225,61 @@ func twoSelectionsProgram(order int, ptr bool) *ir.Program {
 	}
 	return &ir.Program{Root: p, Injectors: injs}
 }
+
+// chainBindProgram: a chain of n interface bindings I0 -> I1 -> ... -> I(n-1) -> *L, where each interface embeds
+// the previous (narrower) one, so that every "concrete" type but the last is itself an interface bound in the same
+// set. consumers is a bit mask over [I0, ..., I(n-1), *L]: which of them the result's provider takes. perm orders
+// the n+1 items (n bindings outermost-first, then the provider of *L); wrap: 0 direct Build arguments, 1 one named set,
+// 2 one inline set.
+func chainBindProgram(n int, consumers int, perm []int, wrap int) *ir.Program {
+	b := ir.NewBuilder()
+	p := b.Root
+	ifs := make([]*ir.Type, n)
+	for i := 0; i < n; i++ {
+		if i == 0 {
+			ifs[i] = b.Iface(p, "I0")
+		} else {
+			ifs[i] = b.Iface(p, fmt.Sprintf("I%d", i), ifs[i-1])
+		}
+	}
+	l := b.Leaf(p, "L")
+	l.Impls = []*ir.Type{ifs[n-1]}
+	l.PtrRecv = true
+	conc := ir.Ptr(l)
+	var core []*ir.Item
+	for i := 0; i < n; i++ {
+		next := conc
+		if i+1 < n {
+			next = ifs[i+1]
+		}
+		core = append(core, ir.BindItem(ifs[i], next))
+	}
+	core = append(core, ir.FuncItem(&ir.Func{Pkg: p, Name: "PConc", Out: conc}))
+	items := make([]*ir.Item, 0, len(core))
+	for _, k := range perm {
+		items = append(items, core[k])
+	}
+	var deps []*ir.Type
+	for i := 0; i <= n; i++ {
+		if consumers&(1<<i) == 0 {
+			continue
+		}
+		if i < n {
+			deps = append(deps, ifs[i])
+		} else {
+			deps = append(deps, conc)
+		}
+	}
+	r := b.Leaf(p, "R")
+	pr := ir.FuncItem(&ir.Func{Pkg: p, Name: "PR", Params: deps, Out: r})
+	inj := &ir.Injector{Name: "Init", Out: r}
+	switch wrap {
+	case 0:
+		inj.Items = append(items, pr)
+	case 1:
+		inj.Items = []*ir.Item{ir.SetRef(&ir.Set{Pkg: p, Name: "ChainSet", Items: items}), pr}
+	default:
+		inj.Items = []*ir.Item{ir.InlineSet(&ir.Set{Pkg: p, Items: items}), pr}
+	}
+	return &ir.Program{Root: p, Injectors: []*ir.Injector{inj}}
+}
